@@ -13,6 +13,16 @@ ENGINES = [
 ]
 
 CHECKS = [
+    {"id": "C09", "engine": "E3 algebraic value numbering",
+     "technique": "substitution of the returned (omega, eta) expressions into the module's own rotation-matrix builder; identity of normal forms",
+     "text": "For all four solvers in both modules the expressions returned for omega and eta are inserted into the rotation "
+             "matrix the module itself builds for that solver (form_omega_mat_general, quart_to_omega, form_omega_mat; "
+             "Ry(-wedge)Rz(omega) for the wedge solver) and the diffraction condition (x = -g.g, eta from the y,z rows) is "
+             "proved as an identity of rational-function normal forms with sqrt relations - i.e. for every g, Bragg angle and "
+             "tilt. Two-or-none branching with the right discriminant, the length precondition (assert / rescale) and the "
+             "tth, tth2 formulas are decided as well. Tangency, the omega = -pi end point and round-off are not decided.",
+     "note": "Trusted: numpy arctan2/arccos principal values; a cos w + b sin w = c has exactly two solutions on the circle "
+             "when a^2+b^2 > c^2; C03 (the builders are the documented compositions)."},
     {"id": "C03", "engine": "E3 algebraic value numbering",
      "technique": "canonical trigonometric-polynomial normal forms of the constructors vs products of elementary rotations; reader/writer substitution for the inverses; sign-case enumeration of _arctan2",
      "text": "All six rotation constructors of both modules are compared entry-wise (exact identities in Q[cos,sin]/(s^2+c^2-1)) "
